@@ -1041,4 +1041,149 @@ theorem contains_is_program : Gen.csContainsViaIndex = true := by decide
 
 end Programs
 
+/-! ## functional specifications of the `MutableSequence` mixins -/
+
+theorem normIdx_last (n : Nat) : normIdx (n + 1) (-1) = .ok n := by
+  unfold normIdx
+  simp only [show ((-1 : Int) < 0) by decide, ↓reduceIte]
+  have h : (0 : Int) ≤ -1 + ((n + 1 : Nat) : Int) ∧ -1 + ((n + 1 : Nat) : Int) < ((n + 1 : Nat) : Int) := by omega
+  rw [if_pos h]
+  congr 1
+  omega
+
+theorem normIdx_empty (i : Int) : normIdx 0 i = .error .index := by
+  unfold normIdx
+  by_cases h : i < 0
+  · simp only [h, ↓reduceIte]; rw [if_neg (by omega)]
+  · simp only [h, ↓reduceIte]; rw [if_neg (by omega)]
+
+theorem clearLoop_spec (n : Nat) : ∀ s : Seq, WF s → s.items.length = n →
+    ∃ s', clearLoop (n + 1) s = (s', none) ∧ s'.items = [] ∧ WF s' ∧ Same s s' := by
+  induction n with
+  | zero =>
+    intro s hw hl
+    refine ⟨s, ?_, List.eq_nil_of_length_eq_zero hl, hw, Same.refl s⟩
+    unfold clearLoop pop delItem
+    simp only [Option.getD_none, hl, normIdx_empty]
+  | succ n ih =>
+    intro s hw hl
+    obtain ⟨s1, h1, h2, h3, h4⟩ := delItem_accepts hw (-1) n (by rw [hl]; exact normIdx_last n)
+    have hl1 : s1.items.length = n := by
+      rw [h2]; simp [List.length_take, List.length_drop, hl]
+    obtain ⟨s', h5, h6, h7, h8⟩ := ih s1 h3 hl1
+    refine ⟨s', ?_, h6, h7, h4.trans h8⟩
+    rw [clearLoop]
+    simp only [pop, Option.getD_none, h1]
+    exact h5
+
+/-- `clear()` empties a reachable sequence (and leaves a consistent, empty index) -/
+theorem clear_spec {s : Seq} (hw : WF s) : ∃ s', clear s = (s', none) ∧ s'.items = [] ∧ WF s' :=
+  let ⟨s', h1, h2, h3, _⟩ := clearLoop_spec s.items.length s hw rfl
+  ⟨s', h1, h2, h3⟩
+
+theorem normIdx_nat (n k : Nat) (h : k < n) : normIdx n (k : Int) = .ok k := by
+  unfold normIdx
+  simp only [show ¬ ((k : Int) < 0) by omega, ↓reduceIte]
+  rw [if_pos (by omega)]
+  simp
+
+/-- one round of `reverse` on a reachable sequence: both assignments are accepted (the items come from the
+sequence itself) and exchange the two positions -/
+theorem swap_spec {s : Seq} (hw : WF s) (i j : Nat) (a b : Item) (hi : s.items[i]? = some a) (hj : s.items[j]? = some b) :
+    ∃ s', swap s i j = (s', none) ∧ s'.items = (s.items.set i b).set j a ∧ WF s' ∧ Same s s' := by
+  have hil : i < s.items.length := (List.getElem?_eq_some_iff.mp hi).1
+  have hjl : j < s.items.length := (List.getElem?_eq_some_iff.mp hj).1
+  have ha : a ∈ s.items := List.mem_of_getElem? hi
+  have hb : b ∈ s.items := List.mem_of_getElem? hj
+  obtain ⟨s1, h1, h2, h3, h4⟩ := setItem_accepts hw (i : Int) b i (hw.rule b hb) (normIdx_nat _ _ hil)
+  have hra : relOk s1.isRoot s1.isSr a := by rw [h4.1, h4.2]; exact hw.rule a ha
+  have hjl1 : j < s1.items.length := by rw [h2]; simpa using hjl
+  obtain ⟨s2, h5, h6, h7, h8⟩ := setItem_accepts h3 (j : Int) a j hra (normIdx_nat _ _ hjl1)
+  refine ⟨s2, ?_, by rw [h6, h2], h7, h4.trans h8⟩
+  unfold swap
+  simp only [hi, hj, h1, h5]
+
+/-- state of the list after the rounds `0 … i-1` of `reverse` -/
+def RevTo (n : Nat) (orig : List Item) (i : Nat) (l : List Item) : Prop :=
+  l.length = n ∧ ∀ p, p < n → l[p]? = if p < i ∨ n - i ≤ p then orig[n - 1 - p]? else orig[p]?
+
+theorem reverseLoop_spec (orig : List Item) (n : Nat) (hn : orig.length = n) (k : Nat) :
+    ∀ s : Seq, k ≤ n / 2 → WF s → RevTo n orig (n / 2 - k) s.items →
+      ∃ s', reverseLoop n k s = (s', none) ∧ RevTo n orig (n / 2) s'.items ∧ WF s' ∧ Same s s' := by
+  induction k with
+  | zero => intro s _ hw hr; exact ⟨s, rfl, by simpa using hr, hw, Same.refl s⟩
+  | succ k ih =>
+    intro s hk hw hr
+    obtain ⟨hlen, hget⟩ := hr
+    have hi : n / 2 - (k + 1) < n / 2 := by omega
+    generalize hidef : n / 2 - (k + 1) = i at *
+    have hin : i < n := by omega
+    have hjn : n - i - 1 < n := by omega
+    have hai := hget i hin
+    rw [if_neg (by omega)] at hai
+    have haj := hget (n - i - 1) hjn
+    rw [if_neg (by omega)] at haj
+    obtain ⟨a, ha⟩ : ∃ a, orig[i]? = some a := ⟨orig[i]'(by omega), by simp⟩
+    obtain ⟨b, hb⟩ : ∃ b, orig[n - i - 1]? = some b := ⟨orig[n - i - 1]'(by omega), by simp⟩
+    obtain ⟨s1, h1, h2, h3, h4⟩ := swap_spec hw i (n - i - 1) a b (hai.trans ha) (haj.trans hb)
+    have hr1 : RevTo n orig (n / 2 - k) s1.items := by
+      have e : n / 2 - k = i + 1 := by omega
+      rw [e, h2]
+      refine ⟨by simp [hlen], ?_⟩
+      intro p hp
+      rw [List.getElem?_set, List.getElem?_set]
+      by_cases hpj : n - i - 1 = p
+      · subst hpj
+        rw [if_pos rfl, if_pos (by simp [hlen]; omega), if_pos (by omega)]
+        have : n - 1 - (n - i - 1) = i := by omega
+        rw [this, ha]
+      · rw [if_neg hpj]
+        by_cases hpi : i = p
+        · subst hpi
+          rw [if_pos rfl, if_pos (by omega), if_pos (by omega)]
+          have : n - 1 - i = n - i - 1 := by omega
+          rw [this, hb]
+        · rw [if_neg hpi, hget p hp]
+          by_cases hc : p < i ∨ n - i ≤ p
+          · rw [if_pos hc, if_pos (by omega)]
+          · rw [if_neg hc, if_neg (by omega)]
+    obtain ⟨s', h5, h6, h7, h8⟩ := ih s1 (by omega) h3 hr1
+    refine ⟨s', ?_, h6, h7, h4.trans h8⟩
+    rw [reverseLoop]
+    simp only [hidef, h1]
+    exact h5
+
+theorem revTo_half (orig l : List Item) (n : Nat) (hn : orig.length = n) (h : RevTo n orig (n / 2) l) : l = orig.reverse := by
+  obtain ⟨hlen, hget⟩ := h
+  apply List.ext_getElem?
+  intro p
+  by_cases hp : p < n
+  · rw [hget p hp, List.getElem?_reverse (by omega), hn]
+    by_cases hc : p < n / 2 ∨ n - n / 2 ≤ p
+    · rw [if_pos hc]
+    · rw [if_neg hc]
+      have : n - 1 - p = p := by omega
+      rw [this]
+  · rw [List.getElem?_eq_none (by omega), List.getElem?_eq_none (by simp; omega)]
+
+/-- `reverse()` reverses a reachable sequence (through `__setitem__`, so the index stays consistent) -/
+theorem reverse_spec {s : Seq} (hw : WF s) : ∃ s', reverse s = (s', none) ∧ s'.items = s.items.reverse ∧ WF s' := by
+  have h0 : RevTo s.items.length s.items (s.items.length / 2 - s.items.length / 2) s.items := by
+    refine ⟨rfl, fun p hp => ?_⟩
+    rw [if_neg (by omega)]
+  obtain ⟨s', h1, h2, h3, _⟩ := reverseLoop_spec s.items s.items.length rfl (s.items.length / 2) s (Nat.le_refl _) hw h0
+  exact ⟨s', h1, revTo_half s.items s'.items _ rfl h2, h3⟩
+
+/-- `remove(x)` deletes the first occurrence of `x` (it goes through the repaired `index`) -/
+theorem remove_spec {s : Seq} (hw : WF s) (x : Item) (hx : x ∈ s.items) :
+    ∃ s', remove s x = (s', none) ∧
+      s'.items = s.items.take (s.items.idxOf x) ++ s.items.drop (s.items.idxOf x + 1) ∧ WF s' := by
+  have hi := index_spec hw.inv x
+  rw [if_pos hx] at hi
+  have hlt : s.items.idxOf x < s.items.length := List.idxOf_lt_length_iff.mpr hx
+  obtain ⟨s', h1, h2, h3, _⟩ := delItem_accepts hw (s.items.idxOf x : Int) _ (normIdx_nat _ _ hlt)
+  refine ⟨s', ?_, h2, h3⟩
+  unfold remove
+  simp only [hi, h1]
+
 end HdVerif.SRContentSeqLemmas
